@@ -211,15 +211,16 @@ Definition parse_gmt_offset (sign_from_text : bool) (zeros : list N) (tzs : list
   | None => gmt_offset 0 0
   | Some g =>
     let m := mins_val zeros (g_mins g) in
-    match pyint (g_hours g) with
-    | Some h =>
+    let finish (h : Z) : result Z :=
       bind (gmt_offset h m) (fun off =>
-        if sign_from_text && starts_minus (g_hours g) && (h =? 0)%Z then OK (- off)%Z else OK off)
+        if sign_from_text && starts_minus (g_hours g) && (h =? 0)%Z then OK (- off)%Z else OK off) in
+    match pyint (g_hours g) with
+    | Some h => finish h
     | None =>
       match g_tz g with
       | None => Err Reject
       | Some name => match tz_lookup tzs name with
-                     | Some h => gmt_offset h m
+                     | Some h => finish h
                      | None => Err Reject
                      end
       end
@@ -299,26 +300,42 @@ Definition ref_num (s : text) : option Z :=
   | _ => if forallb is_digit s then Some (Z.of_N (horner s)) else None
   end.
 Definition chomp (s : text) : text := if N.eqb (last s 0) 10 then removelast s else s.
+(** optional sign of the hours: (negative?, digits) *)
+Definition ref_sign (hrun : text) : bool * text :=
+  match hrun with
+  | c :: r => if c =? 45 then (true, r) else if c =? 43 then (false, r) else (false, hrun)
+  | [] => (false, [])
+  end.
+(** one separator character, two minute digits, then the end or [:name] *)
+Definition ref_minutes (rest : text) : option (Z * option text) :=
+  match rest with
+  | _ :: a :: b :: tl =>
+    if is_digit a && is_digit b
+    then match colon_tail tl with
+         | Some nm => Some ((Z.of_N (a - 48) * 10 + Z.of_N (b - 48))%Z, nm)
+         | None => None
+         end
+    else None
+  | _ => None
+  end.
+(** what follows the hours: nothing, minutes [and a name], or a name: (minutes, name) *)
+Definition ref_tail (rest : text) : option (Z * option text) :=
+  match rest with
+  | [] => Some (0%Z, None)
+  | c :: tl => match ref_minutes rest with
+               | Some r => Some r
+               | None => if c =? 58 then Some (0%Z, Some tl) else None
+               end
+  end.
 (** [offset[:name]]: signed hours, optionally one separator character and two minute digits, optionally :name;
-    also the sign-only form whose hours come from the zone name.  Seconds east of GMT. *)
+    also the sign-only form whose hours come from the zone name.  Seconds east of GMT; a written minus sign
+    makes the offset negative also when the hours are 0. *)
 Definition denote_offset (tzs : list (text * Z)) (inner : text) : option Z :=
   let '(hrun, rest) := span is_hchar inner in
-  let mm_name :=
-    match rest with
-    | [] => Some (0%Z, None)
-    | sep :: a :: b :: tl =>
-      match (if is_digit a && is_digit b then colon_tail tl else None) with
-      | Some nm => Some ((Z.of_N (a - 48) * 10 + Z.of_N (b - 48))%Z, nm)
-      | None => if sep =? 58 then Some (0%Z, Some (a :: b :: tl)) else None
-      end
-    | 58 :: nm => Some (0%Z, Some nm)
-    | _ => None
-    end in
-  match mm_name with
+  match ref_tail rest with
   | None => None
   | Some (mm, name) =>
-    let '(negative, ds) := match hrun with
-                           | 45 :: r => (true, r) | 43 :: r => (false, r) | _ => (false, hrun) end in
+    let '(negative, ds) := ref_sign hrun in
     match (if N.of_nat (List.length ds) <=? 4300 then ref_num ds else None) with
     | Some hh =>
       if (if negative then hh <=? 12 else hh <=? 14)%Z
@@ -329,7 +346,7 @@ Definition denote_offset (tzs : list (text * Z)) (inner : text) : option Z :=
       | _ :: _, Some nm =>
         match tz_lookup tzs nm with
         | Some zh => if ((-12 <=? zh) && (zh <=? 14))%Z
-                     then Some (if zh <? 0 then zh * 3600 - mm * 60 else zh * 3600 + mm * 60)%Z
+                     then Some (if (zh <? 0) || ((zh =? 0) && negative) then zh * 3600 - mm * 60 else zh * 3600 + mm * 60)%Z
                      else None
         | None => None
         end
@@ -340,9 +357,9 @@ Definition denote_offset (tzs : list (text * Z)) (inner : text) : option Z :=
 Definition denote_bracket (tzs : list (text * Z)) (rest : text) : option Z :=
   match rest with
   | [] => Some 0%Z
-  | 91 :: body =>
-    if N.eqb (last body 0) 93 && negb (existsb (N.eqb 10) body) then denote_offset tzs (removelast body) else None
-  | _ => None
+  | c :: body =>
+    if (c =? 91) && N.eqb (last body 0) 93 && negb (existsb (N.eqb 10) body)
+    then denote_offset tzs (removelast body) else None
   end.
 (** HHMMSS[.XXX][bracket] -> microseconds after midnight, not yet reduced *)
 Definition denote_hms (tzs : list (text * Z)) (s : text) : option Z :=
@@ -353,9 +370,10 @@ Definition denote_hms (tzs : list (text * Z)) (s : text) : option Z :=
       let after := skipn 6 s in
       let '(ms, after) :=
         match after with
-        | 46 :: r => match (if 3 <=? N.of_nat (List.length r) then ref_num (firstn 3 r) else None) with
-                     | Some n => (n, skipn 3 r) | None => (0%Z, after) end
-        | _ => (0%Z, after)
+        | c :: r => if (c =? 46) && (3 <=? N.of_nat (List.length r))
+                    then match ref_num (firstn 3 r) with Some n => (n, skipn 3 r) | None => (0%Z, after) end
+                    else (0%Z, after)
+        | [] => (0%Z, after)
         end in
       match denote_bracket tzs after with
       | Some off => Some (h * 3600000000 + mi * 60000000 + sec * 1000000 + ms * 1000 - off * 1000000)%Z
